@@ -57,9 +57,9 @@ def EXHAUSTIVE(tier):
 
 def plan(tier, seed):
     if tier == 'quick':
-        return {'n': 12000, 'deadline': 150, 'floor': {'distinct_nontrivial': 2000, 'answers_compared': 5000}}
+        return {'n': 12000, 'deadline': 150, 'floor': {'kind_template': 1, 'distinct_nontrivial': 2000, 'answers_compared': 5000}}
     return {'n': 250000 + exh_total(), 'deadline': 560, 'exh': exh_total(),
-            'floor': {'distinct_nontrivial': 30000, 'answers_compared': 100000, 'exhaustive_cases': exh_total()}}
+            'floor': {'kind_template': 1, 'distinct_nontrivial': 30000, 'answers_compared': 100000, 'exhaustive_cases': exh_total()}}
 
 
 def setup(tier, seed):
